@@ -858,6 +858,7 @@ def phi_5D_admix_into_1(phi, f2,f3,f4,f5, xx,yy,zz,aa,bb):
     Returns:
         phi (array): The updated phi array.
     """
+    Demes.cache.append(Demes.Pulse(sources=[2,3,4,5], dest=1, proportions=[f2, f3, f4, f5]))
     lower_w_index, upper_w_index, frac_lower, frac_upper, norm \
             = _five_pop_admixture_intermediates(phi, 1-f2-f3-f4-f5,f2,f3,f4, xx,yy,zz,aa,bb, xx)
 
@@ -898,6 +899,7 @@ def phi_5D_admix_into_2(phi, f1,f3,f4,f5, xx,yy,zz,aa,bb):
     Returns:
         phi (array): The updated phi array.
     """
+    Demes.cache.append(Demes.Pulse(sources=[1,3,4,5], dest=2, proportions=[f1, f3, f4, f5]))
     lower_w_index, upper_w_index, frac_lower, frac_upper, norm \
             = _five_pop_admixture_intermediates(phi, f1, 1-f1-f3-f4-f5,f3,f4, xx,yy,zz,aa,bb, xx)
 
@@ -938,6 +940,7 @@ def phi_5D_admix_into_3(phi, f1,f2,f4,f5, xx,yy,zz,aa,bb):
     Returns:
         phi (array): The updated phi array.
     """
+    Demes.cache.append(Demes.Pulse(sources=[1,2,4,5], dest=3, proportions=[f1, f2, f4, f5]))
     lower_w_index, upper_w_index, frac_lower, frac_upper, norm \
             = _five_pop_admixture_intermediates(phi, f1, f2, 1-f1-f2-f4-f5,f4, xx,yy,zz,aa,bb, xx)
 
@@ -978,6 +981,7 @@ def phi_5D_admix_into_4(phi, f1,f2,f3,f5, xx,yy,zz,aa,bb):
     Returns:
         phi (array): The updated phi array.
     """
+    Demes.cache.append(Demes.Pulse(sources=[1,2,3,5], dest=4, proportions=[f1, f2, f3, f5]))
     lower_w_index, upper_w_index, frac_lower, frac_upper, norm \
             = _five_pop_admixture_intermediates(phi, f1, f2, f3, 1-f1-f2-f3-f5, xx,yy,zz,aa,bb, xx)
 
@@ -1018,6 +1022,7 @@ def phi_5D_admix_into_5(phi, f1,f2,f3,f4, xx,yy,zz,aa,bb):
     Returns:
         phi (array): The updated phi array.
     """
+    Demes.cache.append(Demes.Pulse(sources=[1,2,3,4], dest=5, proportions=[f1, f2, f3, f4]))
     lower_w_index, upper_w_index, frac_lower, frac_upper, norm \
             = _five_pop_admixture_intermediates(phi, f1, f2, f3, f4, xx,yy,zz,aa,bb, xx)
 
